@@ -184,8 +184,8 @@ func (e refEnc) entry(t *TyDef, kv [2]*Val) []byte {
 
 // elemBody: a slice element; a nil pointer element contributes nothing.
 func (e refEnc) elemBody(t *TyDef, v *Val) []byte {
-	if t.under().K == "ptr" && v.P == nil {
-		return nil
+	if k := t.under().K; (k == "ptr" || k == "ext") && v.P == nil {
+		return nil // an invalid null value writes nothing either
 	}
 	return e.body(t, v, "")
 }
@@ -471,6 +471,12 @@ func (g *Gen) presenceStruct(depth int) *TyDef {
 			}
 			t = Map(g.keyType(0), v)
 		case 6:
+			if g.r.P(30) {
+				// null types as slice elements (null.Float is rejected there, like *float64): an invalid
+				// entry behaves as a nil pointer entry does
+				t = Slice(Ext(g.r.Pick("null.Int", "null.Bool", "null.String", "null.Time")))
+				break
+			}
 			if depth > 0 {
 				t = g.presenceStruct(depth - 1)
 			} else {
